@@ -56,7 +56,7 @@ package bip39
 //@   ensures [C09] nonempty: implies(err == nil, result != "")
 //@   ghost ws SSeq = fromEntropy_ws
 //@   ensures [C01,C02,C05,C13] enc: implies(validLen(len(entropy)), result == join(ws, sepOf(lang)) && slen(ws) == 3*len(entropy)/4)
-//@   ensures [C01,C02,C05] words: implies(validLen(len(entropy)) && supported(lang), forall(j, 0, slen(ws), sat(ws, j) == lst(lang, digit(V(old(bytes(entropy))), slen(ws)-1-j))))
+//@   ensures [C01,C02,C05,C08] words: implies(validLen(len(entropy)) && supported(lang), forall(j, 0, slen(ws), sat(ws, j) == lst(lang, digit(V(old(bytes(entropy))), slen(ws)-1-j))))
 //@   ensures [C13] wordsAny: implies(validLen(len(entropy)), forall(j, 0, slen(ws), sat(ws, j) == lst(effLang(lang), digit(V(old(bytes(entropy))), slen(ws)-1-j))))
 //@   ensures [C13] pure: unchanged(entropy)
 
@@ -67,7 +67,7 @@ package bip39
 //@   ghost eb Bytes = old(bytes(entropy))
 //@   ensures [C05,C06,C07] input: eb == old(bytes(entropy))
 //@   ensures [C01,C02,C05,C06,C07,C09,C13] enc: result == join(ws, sepOf(lg)) && slen(ws) == wordLen
-//@   ensures [C01,C02,C05,C06,C07] words: implies(supported(lg), forall(j, 0, wordLen, sat(ws, j) == lst(lg, digit(V(old(bytes(entropy))), wordLen-1-j))))
+//@   ensures [C01,C02,C05,C06,C07,C08] words: implies(supported(lg), forall(j, 0, wordLen, sat(ws, j) == lst(lg, digit(V(old(bytes(entropy))), wordLen-1-j))))
 //@   ensures [C09] nonempty: forall(j, 0, wordLen, sat(ws, j) != "")
 //@   ensures [C13] wordsAny: forall(j, 0, wordLen, sat(ws, j) == lst(effLang(lg), digit(V(old(bytes(entropy))), wordLen-1-j)))
 //@   loop 1 assigns BigVal[entInt], BigVal[wordIdx], SMem[wordList]
@@ -226,7 +226,7 @@ package bip39
 //@   ensures [C06] short: implies(validCount(length) && !enough, result == "" && err != nil)
 //@   ensures [C09,C02,C06] success: implies(validCount(length) && enough, err == nil)
 //@   ensures [C02,C05,C06,C07] enc: implies(err == nil, validCount(length) && result == join(ws, sepOf(lang)) && slen(ws) == length && blen(ent) == need)
-//@   ensures [C02,C05,C06,C07] words: implies(err == nil && supported(lang), forall(j, 0, length, sat(ws, j) == lst(lang, digit(V(ent), length-1-j))))
+//@   ensures [C02,C05,C06,C07,C08] words: implies(err == nil && supported(lang), forall(j, 0, length, sat(ws, j) == lst(lang, digit(V(ent), length-1-j))))
 //@   ensures [C05,C06,C07] source: implies(err == nil, ent == rseg(cryptoRander, p0, need) && pos(cryptoRander) == p0 + need)
 //@   ensures [C09] nonempty: implies(err == nil, result != "")
 
